@@ -1020,6 +1020,19 @@ func runMachine(t *rapid.T, mode int) {
 			// application never touches a state between IntermediateRoot and Commit, and while that finding is
 			// listed neither does this generator
 			if ok && x.w.kv() && mc.knownKVPending {
+				// What the listed finding does not forbid is to LOOK at the finalised state through a copy: Copy duplicates
+				// every object the source has touched, so right after the intermediate root a copy must read like its source
+				// (GetPendingStateDB hands such copies out).  The copy is compared once and dropped.
+				if rapid.IntRange(0, 2).Draw(t, "copy_after_kv_ir") == 0 {
+					if y := mc.doCopy(x, o); y != nil {
+						mc.hist = append(mc.hist, fmt.Sprintf("(%s = copy of %s after its intermediate root, compared and dropped)", y.name, x.name))
+						vstat.Label("kv_copy_compared_after_intermediate_root")
+						if !mc.verify(o, x, y) {
+							return
+						}
+						y.dead = true
+					}
+				}
 				if x != mc.insts[0] && len(mc.live()) > 1 && rapid.Bool().Draw(t, "abandon_after_ir") {
 					// ... or the instance is a speculative one that is dropped right here (PreRunBlock / CheckBlock of a proposal
 					// that is never committed): it is not used again, so the listed finding is not touched, but what it has
